@@ -121,17 +121,18 @@ fn replay_body(path: &str) {
     println!("{}", json!({"cases": cases.len(), "prop_mismatch": nprop, "model_drift": 0, "prop": prop, "model": [], "samples": samples, "counts": {"receiver_runs": runs}}));
 }
 
-fn body_source(b: &Value) -> String {
-    let fields = |style: &str| match style {
-        "named" => " { a: u8 }".to_string(),
-        "tuple" => "(u8, u16)".to_string(),
+/// `alt`: braced / parenthesised bodies are written without any field (`{}`, `()`) - for an enum on every other variant
+fn body_source(b: &Value, alt: usize) -> String {
+    let fields = |style: &str, empty: bool| match style {
+        "named" => if empty { " {}".to_string() } else { " { a: u8 }".to_string() },
+        "tuple" => if empty { "()".to_string() } else { "(u8, u16)".to_string() },
         "newtype" => "(u8)".to_string(),
         _ => String::new(),
     };
     match b["kind"].as_str().unwrap() {
-        "struct" => { let f = fields(b["style"].as_str().unwrap()); if f.ends_with('}') { format!("struct D{}", f) } else { format!("struct D{};", f) } }
-        "variant" => format!("enum D {{ V{} }}", fields(b["style"].as_str().unwrap())),
-        "enum" => format!("enum D {{ {} }}", b["vs"].as_array().unwrap().iter().enumerate().map(|(i, s)| format!("V{}{}", i, fields(s.as_str().unwrap()))).collect::<Vec<_>>().join(", ")),
+        "struct" => { let f = fields(b["style"].as_str().unwrap(), alt > 0); if f.ends_with('}') { format!("struct D{}", f) } else { format!("struct D{};", f) } }
+        "variant" => format!("enum D {{ V{} }}", fields(b["style"].as_str().unwrap(), alt > 0)),
+        "enum" => format!("enum D {{ {} }}", b["vs"].as_array().unwrap().iter().enumerate().map(|(i, s)| format!("V{}{}", i, fields(s.as_str().unwrap(), alt > 0 && (i + alt) % 2 == 0))).collect::<Vec<_>>().join(", ")),
         "union" => "union D { a: u8, b: u16 }".to_string(),
         k => panic!("body kind {}", k),
     }
@@ -147,7 +148,9 @@ fn replay_shapes(path: &str) {
         let mut ws: Vec<String> = c["words"].as_array().unwrap().iter().map(|s| s.as_str().unwrap().to_string()).collect();
         ws.sort();
         let key = ws.join(",");
-        let src = body_source(&c["body"]);
+        for alt in 0..3 {
+        let src = body_source(&c["body"], alt);
+        if alt > 0 && src == body_source(&c["body"], 0) { continue; }
         let di: syn::DeriveInput = syn::parse_str(&src).unwrap_or_else(|e| panic!("unparsable body {:?}: {}", src, e));
         let r = catch(std::panic::AssertUnwindSafe(|| {
             if c["body"]["kind"] == "variant" {
@@ -174,6 +177,7 @@ fn replay_shapes(path: &str) {
             nprop += 1;
             if prop.len() < 40 { prop.push(json!({"case": c, "why": [format!("supports({}) on `{}`: {}", key, src, w)], "key": format!("shapes:{}:{}", key, src)})); }
         }
+        }
     }
     // the stand-alone ShapeSet API
     let api = read_tagged(path, "API");
@@ -181,14 +185,38 @@ fn replay_shapes(path: &str) {
     for a in &api {
         let set = ShapeSet::new(a["set"].as_array().unwrap().iter().map(|s| sh(s.as_str().unwrap())));
         let s = sh(a["shape"].as_str().unwrap());
-        let got = (set.contains(&s), set.check(&s).is_ok(), set.is_empty());
+        let got = match catch(std::panic::AssertUnwindSafe(|| (set.contains(&s), set.check(&s).map_err(|e| e.to_string()).is_ok(), set.is_empty(), set.to_string().len()))) {
+            Ok(g) => (g.0, g.1, g.2),
+            Err(p) => {
+                nprop += 1;
+                prop.push(json!({"case": a, "why": [format!("ShapeSet{} vs {}: contains / check / is_empty / Display panicked: {}", a["set"], a["shape"], p)], "key": format!("shapeset-panic:{}:{}", a["set"], a["shape"])}));
+                continue;
+            }
+        };
         let want = (a["contains"].as_bool().unwrap(), a["contains"].as_bool().unwrap(), a["empty"].as_bool().unwrap());
         if got != want {
             nprop += 1;
             prop.push(json!({"case": a, "why": [format!("ShapeSet{} vs {}: (contains, check, is_empty) = {:?}, expected {:?}", a["set"], a["shape"], got, want)], "key": format!("shapeset:{}:{}", a["set"], a["shape"])}));
         }
+        // the same question asked of real syntax: every carrier of a body (syn::Fields, its named / unnamed halves, DataStruct,
+        // Variant, ast::Fields), with and without fields
+        let texts: Vec<&str> = match a["shape"].as_str().unwrap() { "named" => vec![" { a: u8 }", " {}"], "tuple" => vec!["(u8, u16)", "()"], "newtype" => vec!["(u8)"], _ => vec![""] };
+        for t in texts {
+            let di: syn::DeriveInput = syn::parse_str(&format!("enum D {{ V{} }}", t)).unwrap();
+            let v = match &di.data { syn::Data::Enum(e) => e.variants[0].clone(), _ => unreachable!() };
+            let ds = syn::DataStruct { struct_token: Default::default(), fields: v.fields.clone(), semi_token: None };
+            let af: darling::ast::Fields<syn::Field> = darling::ast::Fields::try_from(&v.fields).unwrap();
+            let mut got2 = vec![("syn::Fields", set.contains(&v.fields)), ("syn::Variant", set.contains(&v)), ("syn::DataStruct", set.contains(&ds)), ("ast::Fields", set.contains(&af))];
+            match &v.fields { syn::Fields::Named(n) => got2.push(("syn::FieldsNamed", set.contains(n))), syn::Fields::Unnamed(u) => got2.push(("syn::FieldsUnnamed", set.contains(u))), _ => {} }
+            for (who, g) in got2 {
+                if g != want.0 {
+                    nprop += 1;
+                    prop.push(json!({"case": a, "why": [format!("ShapeSet{} contains {} `V{}` = {}, the table says {}", a["set"], who, t, g, want.0)], "key": format!("shapeset:{}:{}:{}", a["set"], who, t)}));
+                }
+            }
+        }
     }
-    let samples: Vec<Value> = cases.iter().step_by((cases.len() / 3).max(1)).take(3).map(|c| json!({"words": c["words"], "body": body_source(&c["body"]), "expect": c["expect"]})).collect();
+    let samples: Vec<Value> = cases.iter().step_by((cases.len() / 3).max(1)).take(3).map(|c| json!({"words": c["words"], "body": body_source(&c["body"], 0), "expect": c["expect"]})).collect();
     println!("{}", json!({"cases": cases.len() + api.len(), "prop_mismatch": nprop, "model_drift": 0, "prop": prop, "model": [], "samples": samples,
                            "counts": {"derived_cases": cases.len() as u64 - skipped, "api_cases": api.len()}}));
 }
@@ -285,8 +313,9 @@ fn deepest(attrs: &[syn::Attribute], sp: vh::input::Range) -> (Vec<u64>, bool) {
     best
 }
 
-fn main() {
-    if std::env::var("VH_DEBUG").is_err() { std::panic::set_hook(Box::new(|_| {})); }
+fn main() { vh::util::run_main(real_main) }
+
+fn real_main() {
     let args: Vec<String> = std::env::args().collect();
     if args.len() >= 6 && args[1] == "record" {
         record(&args[2], args[3].parse().unwrap(), args[4].parse().unwrap(), &args[5]);
